@@ -3,6 +3,7 @@
 package ugo
 
 import (
+	"github.com/ozanh/ugo/internal/verifrt"
 	"github.com/ozanh/ugo/parser"
 	"github.com/ozanh/ugo/token"
 )
@@ -610,4 +611,47 @@ func specFalsy(a Object) bool {
 		return true
 	}
 	return false
+}
+
+// ---------------------------------------------------------------------------
+// Try/catch/finally handler stack (C03)
+
+// specHandlers: the handler stack of the current frame (nil when none).
+func specHandlers(vm *VM) []errHandler {
+	if vm.curFrame.errHandlers == nil {
+		return nil
+	}
+	return vm.curFrame.errHandlers.handlers
+}
+
+// specPendingErr: the error waiting for a finally block to complete.
+func specPendingErr(vm *VM) *RuntimeError {
+	if vm.curFrame.errHandlers == nil {
+		return nil
+	}
+	return vm.curFrame.errHandlers.err
+}
+
+// specPrefix: a[0:n] == b[0:n].
+func specPrefix(a, b []errHandler, n int) bool {
+	return n <= len(a) && n <= len(b) && verifrt.Forall(func(k int) bool {
+		return !(0 <= k && k < n) || a[k] == b[k]
+	})
+}
+
+// specOperand32: big-endian 4-byte operand at insts[at:at+4].
+func specOperand32(insts []byte, at int) int {
+	return int(insts[at+3]) | int(insts[at+2])<<8 | int(insts[at+1])<<16 | int(insts[at])<<24
+}
+
+// vmFrameOK: the parts of the VM state the try opcodes rely on.
+func vmFrameOK(vm *VM) bool {
+	return vm != nil && vm.curFrame != nil && vm.sp >= 0 && vm.sp < stackSize && vm.ip >= 0
+}
+
+// specHandlersOK: every handler remembers a stack pointer inside the stack.
+func specHandlersOK(h []errHandler) bool {
+	return verifrt.Forall(func(k int) bool {
+		return !(0 <= k && k < len(h)) || (0 <= h[k].sp && h[k].sp < stackSize)
+	})
 }
